@@ -419,6 +419,10 @@ func (s *Lexer) getNextToken() (*Token, error) {
 			buf.WriteRune(ch)
 			current_state = SBLOCKCOMMENT
 		} else if current_state == SCOMMENTSTART {
+			if ch == '\n' {
+				s.unread_last()
+				break
+			}
 			buf.WriteRune(ch)
 			current_state = SCOMMENT
 		} else if ch == '(' && current_state == SSTART {
